@@ -327,7 +327,7 @@ CHECKS = {
     engine="mirsym",
     technique="symbolic execution of the MIR of compio-quic's connection state (ConnectionState::{terminate, close, wake}, "
               "wake_all_streams, ConnectionInner::{state, try_state}, Connection::{poll_recv_datagram, poll_open_stream, "
-              "poll_accept_stream}, SendStream::{stopped, execute_poll_write}, RecvStream::received_reset) with quinn-proto abstracted to nothing / something answers; waker containers are ghost bags whose "
+              "poll_accept_stream}, SendStream::{stopped, execute_poll_write}, RecvStream::{received_reset, execute_poll_read}) with quinn-proto abstracted to nothing / something answers; waker containers are ghost bags whose "
               "field list is parsed from the struct definition on every run; all paths are enumerated, z3 discharges the "
               "(propositional) obligations",
     category="model_checking",
@@ -339,14 +339,14 @@ CHECKS = {
          "poll_accept_stream, polled after termination, return the stored error at once without registering a waker or touching "
          "quinn-proto; polled before, they answer Ready with what quinn-proto handed out or register the caller's waker in a "
          "container that terminate drains (under the right direction) and answer Pending; (c) SendStream::stopped, "
-         "RecvStream::received_reset and SendStream::execute_poll_write answer Pending only while the connection is alive, with the "
+         "RecvStream::{received_reset, execute_poll_read} and SendStream::execute_poll_write answer Pending only while the connection is alive, with the "
          "caller's waker then in `stopped` / `readable` / `writable`, and complete (error or quinn-proto's answer) after "
          "termination without registering. All run under the connection's mutex, so a future is either woken by the close or "
          "sees its error.",
     design_ref="DESIGN.md §1 C16",
     note="Partial by construction: ordered exactly-once stream delivery, finish / end-of-stream, flow control, datagram independence "
-         "(quinn-proto, UDP sockets, the connection worker) are NOT covered and not claimed; nor are RecvStream's read path "
-         "(execute_poll_read: same registration shape, read, not executed), endpoint close, or the worker's reaction to the close."),
+         "(quinn-proto, UDP sockets, the connection worker) are NOT covered and not claimed; nor are endpoint close or the worker's "
+         "reaction to the close."),
  "C18": dict(
     engine="mirsym",
     technique="symbolic execution of the MIR of the dispatcher's worker loop and task wrapper (two async blocks run as coroutines) "
